@@ -26,7 +26,7 @@ static void vb_af_write_sym(struct AbstractFile *f, const char *s, int64_t n)
 static int64_t vb_af_read_prep(struct AbstractFile *f, int64_t n)
 {
     if (n + f->g > f->fileSize) { n = f->fileSize - f->g; f->rdstate = IOS_eofbit | IOS_failbit; }
-    else f->rdstate = IOS_goodbit;
+    else if (n > 0) f->rdstate = IOS_goodbit;          /* a zero-length read leaves the state as it is */
     if (n < 0) n = 0;
     return n;
 }
